@@ -302,7 +302,7 @@ harness(void) {
 			V_ASSERT(0 == cbcnt[t], "self-skip: not on the caller");
 		if (!up[t] && 0 == (flags & TP_MSG_F_FORCE))
 			V_ASSERT(0 == cbcnt[t], "not on a thread that is not running (without FORCE)");
-		if (0 == v_n_write_fail && up[t] && !(skip && t == CALLER) && !(NTHR == 1 && CALLER >= 0 && 0 != ret))
+		if (0 == ret && 0 == v_n_write_fail && up[t] && !(skip && t == CALLER))
 			V_ASSERT(1 == cbcnt[t], "exactly once on every targeted running thread (no send failed)");
 		if (1 == cbcnt[t])
 			V_ASSERT(cb_ran_on[t] == t || cb_ran_on[t] == CALLER, "callback ran on its thread (or directly in the caller)");
@@ -317,6 +317,7 @@ harness(void) {
 	if (failed > 0 && sent > 0) V_WITNESS("bsend_ex with sent and failed");
 #else
 	V_ASSERT(done_cnt <= 1, "completion callback at most once");
+	if (0 != ret) V_WITNESS("cbsend reported an error");
 	if (0 == ret) {
 		V_ASSERT(1 == done_cnt, "completion callback exactly once after a successful cbsend");
 		V_WITNESS("cbsend completed");
